@@ -236,3 +236,18 @@ def node_conditions(prog: Program, func: Func, node: ast.AST, typer=None, expand
         tt = ex.expand(t, cfg.node_containing(t)) if expand else t
         out += split_conj(tt, pol)
     return out
+
+
+def bound_args(call: ast.Call, callee: Func, drop_self: bool = True) -> List[Optional[ast.AST]]:
+    """argument expressions of a call aligned with the callee's parameters (keywords bound by name, missing -> None)"""
+    params = list(callee.params)
+    if drop_self and callee.kind in ('method', 'getter', 'setter') and params:
+        params = params[1:]
+    out: List[Optional[ast.AST]] = [None] * len(params)
+    pos = [a for a in call.args if not isinstance(a, ast.Starred)]
+    for i, a in enumerate(pos[:len(params)]):
+        out[i] = a
+    for k in call.keywords:
+        if k.arg in params:
+            out[params.index(k.arg)] = k.value
+    return out
